@@ -100,8 +100,127 @@ func ipOf(s string) (*net.TCPAddr, bool) {
 	return &net.TCPAddr{IP: net.IP(append([]byte{}, b...)), Port: 12345}, true
 }
 
+// ---- response direction: op `rsp <answer ttls> <authority ttls> <extra ttls> <packed length | E>` (ttl lists `-` or comma
+// separated; an extra ttl 99999 adds an OPT whose client-subnet option cannot be packed); the last field is the
+// oracle len(reply.Pack()) re-checked here.  result `<status> <content-type> <max-age> <content-length>` | `err`
+
+func ttlList(s string) ([]uint32, bool) {
+	if s == "-" {
+		return nil, true
+	}
+	var out []uint32
+	for _, x := range strings.Split(s, ",") {
+		var v uint32
+		if _, err := fmt.Sscanf(x, "%d", &v); err != nil {
+			return nil, false
+		}
+		out = append(out, v)
+	}
+	return out, true
+}
+
+func buildReply(an, ns, ex []uint32) *dns.Msg {
+	m := new(dns.Msg)
+	m.SetQuestion("q.example.", dns.TypeA)
+	m.Response = true
+	for i, t := range an {
+		rr, _ := dns.NewRR(fmt.Sprintf("q.example. %d IN A 192.0.2.%d", t, i%250+1))
+		m.Answer = append(m.Answer, rr)
+	}
+	for i, t := range ns {
+		rr, _ := dns.NewRR(fmt.Sprintf("example. %d IN NS ns%d.example.", t, i))
+		m.Ns = append(m.Ns, rr)
+	}
+	for i, t := range ex {
+		if t == 99999 {
+			o := new(dns.OPT)
+			o.Hdr.Name, o.Hdr.Rrtype = ".", dns.TypeOPT
+			o.Option = append(o.Option, &dns.EDNS0_SUBNET{Code: dns.EDNS0SUBNET, Family: 7, SourceNetmask: 8, Address: net.IP{1, 2, 3, 4}})
+			m.Extra = append(m.Extra, o)
+			continue
+		}
+		rr, _ := dns.NewRR(fmt.Sprintf("ns%d.example. %d IN AAAA 2001:db8::%x", i, t, i+1))
+		m.Extra = append(m.Extra, rr)
+	}
+	return m
+}
+
+func packLen(m *dns.Msg) string {
+	b, err := m.Copy().Pack()
+	if err != nil {
+		return "E"
+	}
+	return fmt.Sprint(len(b))
+}
+
+func execRsp(f []string) string {
+	if len(f) != 5 {
+		return "bad-op"
+	}
+	an, ok1 := ttlList(f[1])
+	ns, ok2 := ttlList(f[2])
+	ex, ok3 := ttlList(f[3])
+	if !ok1 || !ok2 || !ok3 {
+		return "bad-op"
+	}
+	m := buildReply(an, ns, ex)
+	if packLen(m) != f[4] {
+		return "bad-oracle"
+	}
+	req := &bfe_basic.Request{HttpRequest: &bfe_http.Request{Method: "GET", URL: &url.URL{Path: "/dns-query"}}}
+	resp, err := mod_doh.DnsMsgToResponse(req, m)
+	if err != nil {
+		return "err"
+	}
+	b, _ := ioutil.ReadAll(resp.Body)
+	cc := resp.Header.Get("Cache-Control")
+	if !strings.HasPrefix(cc, "max-age=") {
+		return "no-max-age:" + hexs(cc)
+	}
+	cl := resp.Header.Get("Content-Length")
+	if cl != fmt.Sprint(len(b)) {
+		cl = "mismatch"
+	}
+	return fmt.Sprintf("%d %s %s %s", resp.StatusCode, resp.Header.Get("Content-Type"), cc[len("max-age="):], cl)
+}
+
+func genRsp(r *vh.Rand) string {
+	lst := func(maxn int) (string, []uint32) {
+		n := r.Intn(maxn + 1)
+		var xs []string
+		var vs []uint32
+		for i := 0; i < n; i++ {
+			v := uint32(pick(r, 0, 1, 30, 60, 300, 3600, 86400, 2147483647, 4294967295, r.Intn(100000)))
+			if v == 99999 {
+				v = 5
+			}
+			vs = append(vs, v)
+			xs = append(xs, fmt.Sprint(v))
+		}
+		if n == 0 {
+			return "-", nil
+		}
+		return strings.Join(xs, ","), vs
+	}
+	as, an := lst(5)
+	nss, ns := lst(2)
+	es, ex := lst(2)
+	if r.Chance(1, 12) {
+		ex = append(ex, 99999)
+		if es == "-" {
+			es = "99999"
+		} else {
+			es += ",99999"
+		}
+	}
+	return fmt.Sprintf("rsp %s %s %s %s", as, nss, es, packLen(buildReply(an, ns, ex)))
+}
+
 func exec(op string) string {
 	f := strings.Fields(op)
+	if len(f) > 0 && f[0] == "rsp" {
+		return execRsp(f)
+	}
 	if len(f) != 8 || f[0] != "doh" {
 		return "bad-op"
 	}
@@ -280,6 +399,9 @@ func genWire(r *vh.Rand) []byte {
 }
 
 func gen(r *vh.Rand) string {
+	if r.Chance(1, 8) {
+		return genRsp(r)
+	}
 	method := "GET"
 	switch r.Intn(20) {
 	case 0:
